@@ -28,6 +28,19 @@ def instance(chk, name, maxops, alphabet):
     os.remove(out)
 
 
+def redispatch(chk, only):
+    """HandleContext from the main handler of a route: same context, same writer, one commit for the whole request"""
+    c = dict(c04.DEV)
+    c.update(MaxInt=127, AbortIdx=63, MaxG=1 if chk.tier != "thorough" else 2, MaxInner=2 if chk.tier != "thorough" else 3,
+             Scripts={"R", "N", "A", "AS", "W"})
+    res = core.run_tlc("MC_Redispatch", cfg_text=core.cfg(constants=c, invariants=["RedispatchOK", "Emit"]), timeout=900)
+    chk.expect_holds(res, "OneCommit over a request that re-dispatches")
+    chk.add_tlc(res, "re-dispatch cases: global scripts x writer ops before HandleContext x inner chains")
+    out = os.path.join(core.scratch(), "redispatch.ndjson")
+    core.write_ndjson(out, res.lines)
+    chk.absorb(core.run_harness(["chain", "replay", out], env={"VERIF_SEED": chk.seed}), "chain", only=only)
+
+
 def run(chk):
     thorough = chk.tier == "thorough"
     chk.assumptions += [
@@ -38,6 +51,7 @@ def run(chk):
     instance(chk, "wide", 3, full)
     instance(chk, "deep", 5 if thorough else 4, ["Sneg", "S201", "S404", "W0", "W1", "Wshort", "F", "E404"] if thorough
              else ["S0", "S201", "S404", "W1", "Werr", "F", "E404"])
+    redispatch(chk, WR)
     chk.exhaustive = True
     c04.recorded(chk, 2000 if thorough else 300, WR)
     r = core.run_tlc("MC_Writer", cfg_text=wcfg(3, ["S201", "W1", "F"], emit=False, D_FlushNoCommit=True), timeout=300)
